@@ -50,10 +50,10 @@ theorem C12_tryparse_spec (i : Input) (h : WF i = true) (s : Name) (target : Int
   cases specValueOf i.T i.decl s <;> rfl
 
 /-- IsEnum, for every integer v of the type: true exactly when v is a declared value -/
-theorem C12_isenum_iff (i : Input) (h : WF i = true) (hb : 0 < i.kind.bits) (v : Int) (hv : i.kind.has v = true) :
+theorem C12_isenum_iff (i : Input) (h : WF i = true) (v : Int) (hv : i.kind.has v = true) :
     isEnum i.kind (valuesT (tables i)) v = true ↔ ∃ c ∈ i.decl, c.val = v := by
   unfold isEnum
-  rw [wrap_of_has i.kind hb v hv, List.any_eq_true]
+  rw [wrap_of_has i.kind (WF.facts h).bits v hv, List.any_eq_true]
   unfold valuesT
   constructor
   · rintro ⟨x, hx, he⟩
@@ -62,9 +62,9 @@ theorem C12_isenum_iff (i : Input) (h : WF i = true) (hb : 0 < i.kind.bits) (v :
   · rintro ⟨c, hc, rfl⟩
     exact ⟨c.val, List.mem_map_of_mem ((tables_perm h).mem_iff.mpr hc), by simp⟩
 
-theorem C12_isenum (i : Input) (h : WF i = true) (hb : 0 < i.kind.bits) (v : Int) (hv : i.kind.has v = true) :
+theorem C12_isenum (i : Input) (h : WF i = true) (v : Int) (hv : i.kind.has v = true) :
     isEnum i.kind (valuesT (tables i)) v = specIsEnum i.decl v := by
-  rw [Bool.eq_iff_iff, C12_isenum_iff i h hb v hv]
+  rw [Bool.eq_iff_iff, C12_isenum_iff i h v hv]
   simp [specIsEnum]
 
 /-- every encoder puts the String() text on the wire: the trimmed name for a declared constant -/
@@ -148,7 +148,7 @@ theorem C12_F_int_constraint_witness :
 
 /-! ### non-vacuity -/
 
-example : WF truncWitness = true ∧ truncWitness.kind.has 44 = true ∧ 0 < truncWitness.kind.bits ∧
+example : WF truncWitness = true ∧ truncWitness.kind.has 44 = true ∧
     unmarshalJSON (vmOf truncWitness) (.str ['A']) 7 = (none, 44) ∧
     unmarshalJSON (vmOf truncWitness) (.str ['a']) 7 = (some .notFound, 7) ∧
     isEnum truncWitness.kind (valuesT (tables truncWitness)) 44 = true := by decide
